@@ -24,6 +24,7 @@ theorem applyCmd_app_get {k : Kern} {t t' : Table} {c : Chain} {r : PRule} (h : 
   split at h
   · cases h
   · cases h
+  · cases h
   · split at h
     · cases h
     · rename_i rs hg
@@ -186,6 +187,7 @@ theorem ensureRule_get (k : Kern) (prepend : Bool) (c : Chain) (r : PRule) :
   split
   · rfl
   · rfl
+  · rfl
   · split
     · rfl
     · split
@@ -197,6 +199,7 @@ theorem deleteRule_get (k : Kern) (c : Chain) (r : PRule) :
   intro c' hne
   unfold deleteRule
   split
+  · rfl
   · rfl
   · rfl
   · split
@@ -216,6 +219,7 @@ theorem ensureRule_mem (k : Kern) (prepend : Bool) (c : Chain) (r : PRule) (hok 
     ∃ rs, Tbl.get (ensureRule k prepend c r).1.tbl c = some rs ∧ r ∈ rs := by
   unfold ensureRule at hok ⊢
   split
+  · rename_i h; rw [h] at hok; simp at hok
   · rename_i h; rw [h] at hok; simp at hok
   · rename_i h; rw [h] at hok; simp at hok
   · rename_i h
